@@ -606,7 +606,22 @@ func stack() string {
 }
 
 // run executes the concurrent phase and collects the result.
+var debugPlan = os.Getenv("VSIM_DEBUG_PLAN") == "1"
+
 func (w *World) run() *RunResult {
+	if debugPlan {
+		for _, t := range w.tasks {
+			for i, o := range t.ops {
+				fmt.Fprintf(os.Stderr, "PLAN task%d op%d %v\n", t.id, i, o)
+			}
+			for i, d := range t.docs {
+				fmt.Fprintf(os.Stderr, "PLAN task%d doc%d len(canon)=%d %s\n", t.id, i, len(d.Snap), clip(d.Snap, 200))
+			}
+		}
+		for i, d := range w.docs {
+			fmt.Fprintf(os.Stderr, "PLAN shared doc%d len(canon)=%d %s\n", i, len(d.Snap), clip(d.Snap, 200))
+		}
+	}
 	var wg sync.WaitGroup
 	w.cfg.Tasks = len(w.tasks)
 	simrt.BeginRun(w.cfg)
